@@ -42,6 +42,10 @@ func (t *transaction) exchange(req *gen.Cursor) (*gen.Pair, error) {
 }
 
 func (t *transaction) NewIterator(prefix []byte, withUpperBound bool) (db.Iterator, error) {
+	return t.newIterator(prefix, withUpperBound)
+}
+
+func (t *transaction) newIterator(prefix []byte, withUpperBound bool) (*iterator, error) {
 	pair, err := t.exchange(&gen.Cursor{
 		Op: gen.Op_OPEN,
 	})
@@ -62,7 +66,18 @@ func (t *transaction) NewIterator(prefix []byte, withUpperBound bool) (db.Iterat
 }
 
 func (t *transaction) Discard() error {
-	return t.client.CloseSend()
+	t.mu.Lock()
+	defer t.mu.Unlock()
+
+	err := t.client.CloseSend()
+	// The RPC is over once its status has been read; until then the client keeps the stream and
+	// a goroutine alive (for as long as the database's context lives).
+	for {
+		if _, recvErr := t.client.Recv(); recvErr != nil {
+			break
+		}
+	}
+	return err
 }
 
 func (t *transaction) Commit() error {
@@ -116,4 +131,4 @@ func (t *transaction) Put(key, val []byte) error {
 func (t *transaction) Size() int    { return 0 }
 func (t *transaction) Reset()       {}
 func (t *transaction) Write() error { return nil }
-func (t *transaction) Close() error { return t.client.CloseSend() }
+func (t *transaction) Close() error { return t.Discard() }
